@@ -26,7 +26,7 @@ def env_jobs(ctx):
                 if lv in sub:
                     vals[lv] = "v%d" % (rank + 1 if order == "inc" else 9 - rank)
             modes = ["stage"] if "stage" in sub else ["direct", "stage"]
-            for mode in modes:
+            for mode, varpos in [(m, vp) for m in modes for vp in (("last", "first") if "variation" in sub else ("last",))]:
                 task = {"command": ['echo "X=${X-UNSET}" >> "$PROJ/out"; echo "P=${PASSTHRU-UNSET}" >> "$PROJ/out"; echo "TN=${TASK_NAME-UNSET}" >> "$PROJ/out"'],
                         "context": "cx"}
                 files = {}
@@ -35,8 +35,15 @@ def env_jobs(ctx):
                 if "envfile" in vals:
                     task["env_file"] = "envfile"
                     files["envfile"] = "X=%s\nOTHER=1\n" % vals["envfile"]
+                judged = dict(vals)
                 if "variation" in vals:
-                    task["variations"] = [{"X": vals["variation"]}]
+                    # the variations of one task define DIFFERENT name sets; what is judged is the LAST variation's output
+                    # (later lines of the out file replace earlier ones): "last" = it defines X; "first" = only the first one does
+                    if varpos == "last":
+                        task["variations"] = [{"OTHER_V": "1"}, {"X": vals["variation"]}]
+                    else:
+                        task["variations"] = [{"X": vals["variation"]}, {"OTHER_V": "1"}]
+                        del judged["variation"]
                 cx = {"env": {"X": vals["ctx"]}} if "ctx" in vals else {"env": {"CX": "1"}}
                 stage = {"task": "t"}
                 if "stage" in vals:
@@ -47,14 +54,14 @@ def env_jobs(ctx):
                 if "parent" in vals:
                     env["X"] = vals["parent"]
                 jobs.append({"id": len(jobs), "files": files, "argv": ["-c", "cfg.json", "--raw", "t" if mode == "direct" else "p"], "env": env,
-                             "keep": ["out"], "vals": vals, "mode": mode, "kind": "env", "order": order})
+                             "keep": ["out"], "vals": judged, "mode": mode, "kind": "env", "order": order, "varpos": varpos, "defined": sorted(vals)})
     return jobs
 
 
 def dir_jobs(ctx, first_id, workdir):
     jobs = []
     for sub in [s for k in range(0, 4) for s in itertools.combinations(["stage", "task", "ctx"], k)]:
-        for where in ("root", "sub"):
+        for where in ("root", "sub", "sub-default"):
             for mode in (["stage"] if "stage" in sub else ["direct", "stage"]):
                 jid = first_id + len(jobs)
                 proj = os.path.join(workdir, "cli", str(jid), "proj")
@@ -69,9 +76,10 @@ def dir_jobs(ctx, first_id, workdir):
                 if "stage" in sub:
                     stage["dir"] = proj + "/sd"
                 doc = {"contexts": {"cx": cx}, "tasks": {"t": task}, "pipelines": {"p": [stage]}}
-                files = {"cfg.json": clilib.jcfg(doc), "td/x": "", "cd/x": "", "sd/x": "", "sub/x": ""}
+                files = {("taskctl.yaml" if where == "sub-default" else "cfg.json"): clilib.jcfg(doc), "td/x": "", "cd/x": "", "sd/x": "", "sub/x": ""}
                 cfgp = "cfg.json" if where == "root" else "../cfg.json"
-                jobs.append({"id": jid, "files": files, "argv": ["-c", cfgp, "--raw", "--set", "PD=" + proj, "t" if mode == "direct" else "p"],
+                # "sub-default": no -c; taskctl.yaml is discovered in the parent directory (JSON is YAML)
+                jobs.append({"id": jid, "files": files, "argv": ([] if where == "sub-default" else ["-c", cfgp]) + ["--raw", "--set", "PD=" + proj, "t" if mode == "direct" else "p"],
                              "cwd": "" if where == "root" else "sub", "keep": ["out"], "kind": "dir", "sub": list(sub), "where": where, "mode": mode,
                              "dirs": {"stage": proj + "/sd" if "stage" in sub else "", "task": proj + "/td" if "task" in sub else "",
                                       "ctx": proj + "/cd" if "ctx" in sub else "", "start": proj if where == "root" else proj + "/sub"}})
